@@ -201,6 +201,8 @@ impl ReaderGroup {
                 let rpos = (**reader_ptr).pos_data.load_count(MAYBE_ACQUIRE);
                 let (diff, tofar) = past(cur_writer, rpos);
                 if tofar {
+                    #[cfg(multiqueue2_verif)]
+                    crate::verif_hooks::probe(crate::verif_hooks::p::MAX_DIFF_NONE);
                     return None;
                 }
                 max_diff = if diff > max_diff { diff } else { max_diff };
@@ -253,6 +255,8 @@ impl ReadCursor {
                 if second_ptr == first_ptr {
                     return rval;
                 }
+                #[cfg(multiqueue2_verif)]
+                crate::verif_hooks::probe(crate::verif_hooks::p::GROUP_CHANGED_DURING_SCAN);
             }
         }
     }
@@ -265,6 +269,8 @@ impl ReadCursor {
                 crate::verif_hooks::touch(current_ptr as usize, "ReaderGroup dereference in add_stream");
                 let current_group = &*current_ptr;
                 let raw = (*reader.pos).pos_data.load_raw(Ordering::Relaxed);
+                #[cfg(multiqueue2_verif)]
+                crate::verif_hooks::probe(crate::verif_hooks::p::ADD_STREAM_SNAPSHOT);
                 let wrap = (*reader.pos).pos_data.wrap_at();
                 let (new_group, new_reader) = current_group.add_stream(raw, wrap);
                 fence(Ordering::SeqCst);
@@ -280,6 +286,8 @@ impl ReadCursor {
                         return new_reader;
                     }
                     Err(val) => {
+                        #[cfg(multiqueue2_verif)]
+                        crate::verif_hooks::probe(crate::verif_hooks::p::ADD_STREAM_CAS_RETRY);
                         current_ptr = val;
                         fence(Ordering::Acquire);
                         ptr::read(new_group);
@@ -306,6 +314,8 @@ impl ReadCursor {
                     Ordering::SeqCst,
                 ) {
                     Ok(_) => {
+                        #[cfg(multiqueue2_verif)]
+                        crate::verif_hooks::probe(crate::verif_hooks::p::REMOVE_READER_UNLINKED);
                         fence(Ordering::SeqCst);
                         if (*current_group).readers.len() == 1 {
                             self.last_pos.set(reader.load_count(Ordering::Relaxed));
